@@ -170,8 +170,9 @@ pub(crate) fn to_rust_field_name(name: &str) -> String {
     ident = format!("negative_{ident}");
   }
 
-  if ident == "self" {
-    return "self_".to_string();
+  // `self`, `crate` and `super` cannot be raw identifiers
+  if matches!(ident.as_str(), "self" | "crate" | "super") {
+    return format!("{ident}_");
   }
 
   if FORBIDDEN_IDENTIFIERS.contains(ident.as_str()) {
